@@ -201,8 +201,8 @@ package libaudit
 //@ ensures[C08] !sendOK(old(envlen())) ==> !isNil(result1)
 //@ ensures[C08] isNil(result1) ==> recvOK(envlen() - 1) && recvMsg(envlen() - 1).Header.Seq == sentSeq(old(envlen())) && recvMsg(envlen() - 1).Header.Type == syscall.NLMSG_DONE
 //@ ensures[C08] !isNil(result1) ==> len(result0) == 0
-//@ ensures[C17] forall k int :: lo(result0) <= k && k < hi(result0) ==> !envowned(at(result0, k)) && allocated(at(result0, k)) && base(at(result0, k)) != 0
-//@ loop 0 invariant[C17] forall k int :: lo(rules) <= k && k < hi(rules) ==> !envowned(at(rules, k)) && allocated(at(rules, k)) && base(at(rules, k)) != 0
+//@ ensures[C08,C17] forall k int :: lo(result0) <= k && k < hi(result0) ==> !envowned(at(result0, k)) && allocated(at(result0, k)) && base(at(result0, k)) != 0
+//@ loop 0 invariant[C08,C17] forall k int :: lo(rules) <= k && k < hi(rules) ==> !envowned(at(rules, k)) && allocated(at(rules, k)) && base(at(rules, k)) != 0
 //@ loop 0 invariant envlen() > old(envlen()) && sendIs(old(envlen()), 1013, 0) && sendOK(old(envlen()))
 //@ loop 0 invariant seq == sentSeq(old(envlen()))
 
